@@ -76,6 +76,7 @@ var c08Applicable = [][]string{
 	{"optional", "nullable", "const", "type", "enum"},                                                            // boolean
 	{"optional", "nullable", "const", "type", "enum"},                                                            // null
 	{"optional", "nullable", "const", "min", "max", "exclusiveMinimum", "exclusiveMaximum", "precision", "type"}, // negative float
+	{"optional", "nullable", "const", "min", "max", "exclusiveMinimum", "exclusiveMaximum", "type"},              // zero
 	{"optional", "nullable"}, // reference
 }
 
